@@ -13,21 +13,22 @@ Section SvalInd.
   Hypothesis Hfun : forall f, P (SFun f).
   Hypothesis Htup : forall l, Forall P l -> P (STuple l).
   Hypothesis Hlist : forall l, Forall P l -> P (SList l).
+  Hypothesis Hdict : forall ks vs, Forall P ks -> Forall P vs -> P (SDict ks vs).
+  Hypothesis Hlit : forall v, P v -> P (SLit v).
   Fixpoint sval_ind' (a : sval) : P a :=
+    let fix go (l : list sval) : Forall P l :=
+        match l with
+        | [] => Forall_nil P
+        | x :: tl => Forall_cons x (sval_ind' x) (go tl)
+        end in
     match a with
     | SStr s => Hstr s
     | SAtom x => Hatom x
     | SFun f => Hfun f
-    | STuple l => Htup l ((fix go (l : list sval) : Forall P l :=
-                             match l with
-                             | [] => Forall_nil P
-                             | x :: tl => Forall_cons x (sval_ind' x) (go tl)
-                             end) l)
-    | SList l => Hlist l ((fix go (l : list sval) : Forall P l :=
-                             match l with
-                             | [] => Forall_nil P
-                             | x :: tl => Forall_cons x (sval_ind' x) (go tl)
-                             end) l)
+    | STuple l => Htup l (go l)
+    | SList l => Hlist l (go l)
+    | SDict ks vs => Hdict ks vs (go ks) (go vs)
+    | SLit v => Hlit v (sval_ind' v)
     end.
 End SvalInd.
 
@@ -61,6 +62,10 @@ Proof.
     rewrite (svals_eqb_spec l H). split; [intros E; subst; reflexivity | intros E; inversion E; reflexivity].
   - change (svals_eqb l l0 = true <-> SList l = SList l0).
     rewrite (svals_eqb_spec l H). split; [intros E; subst; reflexivity | intros E; inversion E; reflexivity].
+  - change (svals_eqb ks ks0 && svals_eqb vs vs0 = true <-> SDict ks vs = SDict ks0 vs0).
+    rewrite andb_true_iff, (svals_eqb_spec ks H), (svals_eqb_spec vs H0).
+    split; [intros [E1 E2]; subst; reflexivity | intros E; inversion E; tauto].
+  - rewrite IHa. split; [intros E; subst; reflexivity | intros E; inversion E; reflexivity].
 Qed.
 
 Lemma list_eqb_spec {A} (eqb : A -> A -> bool) :
@@ -127,6 +132,7 @@ Section Eval.
   Lemma eval_tuple c l : eval_arg apply keys c (STuple l) =
     match l with
     | SFun f :: rest => let (vs, ev) := eval_list c rest in (apply f vs, ev ++ [(f, vs)])
+    | SLit v :: rest => let (vs, ev) := eval_list c rest in (v, ev)
     | _ => let (vs, ev) := eval_list c l in (STuple vs, ev)
     end.
   Proof. destruct l as [|[] tl]; reflexivity. Qed.
@@ -143,7 +149,7 @@ Section Eval.
   Proof. reflexivity. Qed.
   Lemma key_slist l : has_key_string keys (SList l) = any_key l.
   Proof. reflexivity. Qed.
-  Lemma call_tuple l : has_call_tuple (STuple l) = match l with SFun _ :: _ => true | _ => any_call l end.
+  Lemma call_tuple l : has_call_tuple (STuple l) = match l with SFun _ :: _ | SLit _ :: _ => true | _ => any_call l end.
   Proof. destruct l as [|[] tl]; reflexivity. Qed.
   Lemma call_slist l : has_call_tuple (SList l) = any_call l.
   Proof. reflexivity. Qed.
@@ -218,15 +224,15 @@ Section Eval.
     - split; reflexivity.
     - split; reflexivity.
     - rewrite key_tuple in Hk. rewrite call_tuple in Hc.
-      assert (Hc' : any_call l = false /\ match l with SFun _ :: _ => False | _ => True end).
-      { destruct l as [|[] tl]; try (split; [exact Hc | exact I]). discriminate. }
+      assert (Hc' : any_call l = false /\ match l with SFun _ :: _ | SLit _ :: _ => False | _ => True end).
+      { destruct l as [|[] tl]; try (split; [exact Hc | exact I]); discriminate. }
       destruct Hc' as [Hc1 Hc2].
       assert (Hall : forall x, In x l -> eval_arg apply keys c x = (x, []) /\ arg_deps keys x = []).
       { intros x Hx. rewrite Forall_forall in H. apply H; [exact Hx | eapply any_key_false; eassumption | eapply any_call_false; eassumption]. }
       split.
       + rewrite eval_tuple.
         assert (E : eval_list c l = (l, [])) by (apply eval_list_id; intros x Hx; apply Hall; exact Hx).
-        destruct l as [|[] tl]; try (rewrite E; reflexivity). contradiction.
+        destruct l as [|[] tl]; try (rewrite E; reflexivity); contradiction.
       + rewrite deps_tuple. apply deps_list_nil. intros x Hx. apply Hall. exact Hx.
     - rewrite key_slist in Hk. rewrite call_slist in Hc.
       assert (Hall : forall x, In x l -> eval_arg apply keys c x = (x, []) /\ arg_deps keys x = []).
@@ -234,6 +240,67 @@ Section Eval.
       split.
       + rewrite eval_slist, (eval_list_id c l) by (intros x Hx; apply Hall; exact Hx). reflexivity.
       + rewrite deps_slist. apply deps_list_nil. intros x Hx. apply Hall. exact Hx.
+    - split; reflexivity.
+    - split; reflexivity.
+  Qed.
+
+  (* ---- the quoting of as_dask_dict ---------------------------------------------------------- *)
+  Definition any_interp : list sval -> bool :=
+    fix any (l : list sval) : bool :=
+      match l with [] => false | x :: tl => interpreted keys x || any tl end.
+
+  Lemma interp_tuple l : interpreted keys (STuple l) =
+    (match l with x :: _ => is_callable x | [] => false end) || any_interp l.
+  Proof. reflexivity. Qed.
+  Lemma interp_slist l : interpreted keys (SList l) = any_interp l.
+  Proof. reflexivity. Qed.
+
+  Lemma any_interp_false l : any_interp l = false -> forall x, In x l -> interpreted keys x = false.
+  Proof.
+    induction l as [|y tl IH]; intros H x Hx; [contradiction|].
+    cbn [any_interp] in H. fold any_interp in H. apply orb_false_iff in H. destruct H as [H1 H2].
+    destruct Hx as [Hx|Hx]; [subst; exact H1 | apply IH; assumption].
+  Qed.
+
+  Lemma any_key_of l : (forall x, In x l -> has_key_string keys x = false) -> any_key l = false.
+  Proof.
+    induction l as [|y tl IH]; intros H; [reflexivity|]. cbn [any_key]. fold any_key.
+    rewrite (H y (or_introl eq_refl)), IH by (intros x Hx; apply H; right; exact Hx). reflexivity.
+  Qed.
+  Lemma any_call_of l : (forall x, In x l -> has_call_tuple x = false) -> any_call l = false.
+  Proof.
+    induction l as [|y tl IH]; intros H; [reflexivity|]. cbn [any_call]. fold any_call.
+    rewrite (H y (or_introl eq_refl)), IH by (intros x Hx; apply H; right; exact Hx). reflexivity.
+  Qed.
+
+  (* what as_dask_dict leaves unquoted is read literally by the scheduler *)
+  Lemma not_interpreted_safe : forall a, interpreted keys a = false ->
+    has_key_string keys a = false /\ has_call_tuple a = false.
+  Proof.
+    induction a using sval_ind'; intros Hi; try (split; reflexivity).
+    - cbn [interpreted] in Hi. cbn [has_key_string]. split; [exact Hi | reflexivity].
+    - rewrite interp_tuple in Hi. apply orb_false_iff in Hi. destruct Hi as [Hh Ha].
+      assert (Hall : forall x, In x l -> has_key_string keys x = false /\ has_call_tuple x = false).
+      { intros x Hx. rewrite Forall_forall in H. apply H; [exact Hx | eapply any_interp_false; eassumption]. }
+      split.
+      + rewrite key_tuple. apply any_key_of. intros x Hx. apply Hall. exact Hx.
+      + rewrite call_tuple.
+        assert (E : any_call l = false) by (apply any_call_of; intros x Hx; apply Hall; exact Hx).
+        destruct l as [|[] tl]; try exact E; cbn [is_callable] in Hh; discriminate.
+    - rewrite interp_slist in Hi.
+      assert (Hall : forall x, In x l -> has_key_string keys x = false /\ has_call_tuple x = false).
+      { intros x Hx. rewrite Forall_forall in H. apply H; [exact Hx | eapply any_interp_false; eassumption]. }
+      split.
+      + rewrite key_slist. apply any_key_of. intros x Hx. apply Hall. exact Hx.
+      + rewrite call_slist. apply any_call_of. intros x Hx. apply Hall. exact Hx.
+  Qed.
+
+  (* every static input, quoted or not, reaches the task function as it is, without any call *)
+  Lemma eval_quote c a : eval_arg apply keys c (quote keys a) = (a, []) /\ arg_deps keys (quote keys a) = [].
+  Proof.
+    unfold quote. destruct (interpreted keys a) eqn:E.
+    - split; reflexivity.
+    - destruct (not_interpreted_safe a E) as [S1 S2]. apply eval_safe; assumption.
   Qed.
 
   (* the evaluator only reads the cache at the dependencies *)
@@ -260,15 +327,15 @@ Section Eval.
       destruct l as [|x tl].
       + reflexivity.
       + assert (E : eval_list c1 (x :: tl) = eval_list c2 (x :: tl)) by (apply eval_list_local; assumption).
-        destruct x; try (rewrite E; reflexivity).
-        (* callable head *)
         inversion H as [|? ? Hx Htl]; subst.
         assert (E' : eval_list c1 tl = eval_list c2 tl).
         { apply eval_list_local; [exact Htl|]. intros k Hk. apply Hd. cbn [deps_list]. fold deps_list.
-          cbn [arg_deps app]. exact Hk. }
-        rewrite E'. reflexivity.
+          apply in_or_app. right. exact Hk. }
+        destruct x; try (rewrite E; reflexivity); rewrite E'; reflexivity.
     - rewrite deps_slist in Hd. rewrite !eval_slist.
       rewrite (eval_list_local c1 c2 l H Hd). reflexivity.
+    - reflexivity.
+    - reflexivity.
   Qed.
 End Eval.
 
@@ -337,13 +404,11 @@ Section Sound.
 
   Notation key := (key_of ids o).
   Definition entry (t : task) : sval :=
-    STuple (SFun (tfun t) :: tinputs t ++ map (fun p => SStr (key p)) (pred g t)).
+    STuple (SFun (tfun t) :: map (quote (map key (nodes g))) (tinputs t) ++ map (fun p => SStr (key p)) (pred g t)).
   Definition the_dsk : dsk := map (fun t => (key t, entry t)) (nodes g).
   Notation K := (map key (nodes g)).
 
   Hypothesis Hfresh : NoDup K.
-  Hypothesis Hsafe : forall t a, In t (nodes g) -> In a (tinputs t) ->
-                                 has_key_string K a = false /\ has_call_tuple a = false.
 
   Lemma as_dask_dict_eq : as_dask_dict g ids = Some the_dsk.
   Proof. unfold as_dask_dict. rewrite Hout. reflexivity. Qed.
@@ -363,6 +428,17 @@ Section Sound.
     apply in_map. apply Hi. exact Hp.
   Qed.
 
+  Lemma eval_list_quoted c l : eval_list apply K c (map (quote K) l) = (l, []).
+  Proof.
+    induction l as [|a tl IH]; [reflexivity|]. cbn [map]. rewrite eval_list_cons.
+    destruct (eval_quote apply K c a) as [E _]. rewrite E, IH. reflexivity.
+  Qed.
+  Lemma deps_list_quoted l : deps_list K (map (quote K) l) = [].
+  Proof.
+    induction l as [|a tl IH]; [reflexivity|]. cbn [map deps_list]. fold (deps_list K).
+    destruct (eval_quote apply K (fun _ => dflt_sval) a) as [_ E]. rewrite E, IH. reflexivity.
+  Qed.
+
   Definition args_of (t : task) (c : task -> sval) : list sval := tinputs t ++ map c (pred g t).
 
   Lemma comp_entry t (c : positive -> dval) : In t (nodes g) -> incl (pred g t) (nodes g) ->
@@ -371,8 +447,7 @@ Section Sound.
   Proof.
     intros Ht Hp. unfold dask_comp. rewrite (lookup_entry t Ht), dkeys_the_dsk. unfold entry.
     rewrite eval_tuple, eval_list_app.
-    rewrite (eval_list_id apply K _ (tinputs t)).
-    2:{ intros a Ha. destruct (Hsafe t a Ht Ha) as [S1 S2]. apply eval_safe; assumption. }
+    rewrite (eval_list_quoted _ (tinputs t)).
     rewrite <- (map_map key SStr), (eval_list_keys apply K) by (apply pred_keys_in; exact Hp).
     cbn [fst snd app]. unfold args_of. rewrite map_map. reflexivity.
   Qed.
@@ -382,8 +457,7 @@ Section Sound.
   Proof.
     intros Ht Hp. unfold dask_deps. rewrite (lookup_entry t Ht), dkeys_the_dsk. unfold entry.
     rewrite deps_tuple. change (deps_list K (SFun (tfun t) :: ?l)) with (deps_list K l).
-    rewrite deps_list_app, (deps_list_nil K (tinputs t)).
-    2:{ intros a Ha. destruct (Hsafe t a Ht Ha) as [S1 S2]. apply (eval_safe apply K (fun _ => dflt_sval)); assumption. }
+    rewrite deps_list_app, (deps_list_quoted (tinputs t)).
     rewrite <- (map_map key SStr), deps_list_keys by (apply pred_keys_in; exact Hp). reflexivity.
   Qed.
 
